@@ -28,7 +28,8 @@ import rcache_sched as S
 CID = "C11"
 AREA = "rcache"
 VO = ["props/C11.vo", "rcache/PyList.vo", "rcache/RCacheModel.vo", "rcache/RCacheSpec.vo",
-      "rcache/RCacheThm.vo", "rcache/RQueryModel.vo", "rcache/RQuerySpec.vo", "rcache/RQueryThm.vo"]
+      "rcache/RCacheThm.vo", "rcache/RQueryModel.vo", "rcache/RQuerySpec.vo", "rcache/RQueryThm.vo",
+      "base/Cal.vo", "rr/RRBase.vo", "rr/RRNorm.vo", "rcache/RReplace.vo"]
 
 
 def listing(recipe):
